@@ -24,6 +24,7 @@ inductive Phase
   | blocked                     -- in `select`
   | gotElem (k : Key)           -- returned an element of key k
   | gotNull                     -- returned null
+  | aborted                     -- a pop attempt panicked (wrong type): the call is unwinding
 deriving DecidableEq, Repr
 
 structure WSt where
@@ -44,6 +45,7 @@ inductive Ev
   | wake (w : W)
   | timeout (w : W)
   | notify (w : W) (k : Key)              -- a push to k offers w a wake-up (never blocks: a full buffer stays full)
+  | abort (w : W)                         -- a pop attempt panicked; the deferred clean-up follows
   | unreg (w : W) (k : Key)
   | fin (w : W)
 deriving Repr
@@ -97,12 +99,19 @@ def step (s : BState) : Ev → Option BState
       -- only registered waiters are offered a wake-up
       if !st.reg.contains k then none else
       some (set s w { st with buf := true, seen := st.seen.filter (· != k), notified := st.notified + 1 })
+  | .abort w =>
+    match get s w with
+    | none => none
+    | some st =>
+      match st.phase with
+      | .registering | .scan _ => some (set s w { st with phase := .aborted })
+      | _ => none
   | .unreg w k =>
     match get s w with
     | none => none
     | some st =>
       match st.phase with
-      | .gotElem _ | .gotNull => some (set s w { st with reg := st.reg.filter (· != k) })
+      | .gotElem _ | .gotNull | .aborted => some (set s w { st with reg := st.reg.filter (· != k) })
       | _ => none
   | .fin w =>
     match get s w with
